@@ -85,7 +85,7 @@ def call_shapes(names, rng, full):
                     host = None
                     if seq is None and mp is None:
                         host = (["i%d" % (10 + i) for i in range(npos)], [[n, "i%d" % (20 + i)] for i, n in enumerate(named)])
-                    shapes.append((", ".join(parts), host))
+                    shapes.append((", ".join(parts), host, (pos, list(nm), seq, mp)))
     return shapes
 
 
@@ -95,7 +95,7 @@ def py_expected(sig_text, ret, calls):
     exec(compile(src, "sig", "exec"), env)
     f = env["f"]
     out = []
-    for text, host in calls:
+    for text, host, _st in calls:
         try:
             r = eval("f(%s)" % text, {"f": f})
             out.append(["ok", ref_py.canon(r)])
@@ -120,7 +120,7 @@ def star_src(sig_text, ret, calls, path):
         callee = "PF"
     else:
         callee = "f"
-    body = "".join("emit(attempt(lambda: %s(%s)))\n" % (callee, text) for text, _ in calls)
+    body = "".join("emit(attempt(lambda: %s(%s)))\n" % (callee, c[0]) for c in calls)
     return d, body
 
 
@@ -173,6 +173,41 @@ def run(tier):
                 units = [{"file": "sig.star", "src": d, "calls": [{"fn": "f", "pos": c[1][0], "named": c[1][1]} for c, _ in hc]}]
                 meta[cid] = (sig_text, [c for c, _ in hc], [e for _, e in hc], path)
             cases.append({"id": cid, "cfg": {"dialect": "internal"}, "units": units})
+        # partial(): the call f(P.., N.., *s, **m) split into partial(f, P[:i], N[:j])(P[i:], N[j:], *s, **m) must bind like the call itself;
+        # naming a pre-bound keyword again must fail. Partials built in the calling module, in a frozen module, and called from the host.
+        prng = random.Random("%d/c08p/%d" % (s, si))
+        pcalls, pexp = [], []
+        for c, e in zip(calls, exp):
+            pos, nm, seq, mp = c[2]
+            i, j = prng.randint(0, len(pos)), prng.randint(0, len(nm))
+            pre = pos[:i] + nm[:j]
+            post = pos[i:] + nm[j:] + (["*%s" % json.dumps(seq)] if seq is not None else []) + (["**%s" % json.dumps(mp)] if mp is not None else [])
+            hostp = None
+            if c[1] is not None:
+                hostp = (c[1][0][i:], c[1][1][j:])
+            pcalls.append(("partial(f, %s)(%s)" % (", ".join(pre), ", ".join(post)), hostp, (", ".join(pre), ", ".join(post))))
+            pexp.append(e)
+            if nm[:j] and prng.random() < 0.5:
+                again = nm[prng.randrange(j)].split("=")[0]
+                hostp2 = (hostp[0], hostp[1] + [[again, "i77"]]) if hostp is not None else None
+                rest = pos[i:] + nm[j:] + ["%s=77" % again] + post[len(pos[i:]) + len(nm[j:]):]
+                pcalls.append(("partial(f, %s)(%s)" % (", ".join(pre), ", ".join(rest)), hostp2, (", ".join(pre), ", ".join(rest))))
+                pexp.append(["fail"])
+        d0, _b = star_src(sig_text, ret, [], "direct")
+        cid = "s%d/partial_split" % si
+        cases.append({"id": cid, "cfg": {"dialect": "internal"}, "units": [{"file": "sig.star", "src": d0 + "".join("emit(attempt(lambda: partial(f, %s)(%s)))\n" % c[2] for c in pcalls)}]})
+        meta[cid] = (sig_text, pcalls, pexp, "partial_split")
+        cid = "s%d/partial_frozen" % si
+        lib = d0 + "PS = [\n" + "".join("    partial(f, %s),\n" % c[2][0] for c in pcalls) + "]\n"
+        use = 'load("sig.star", "PS")\n' + "".join("emit(attempt(lambda: PS[%d](%s)))\n" % (k, c[2][1]) for k, c in enumerate(pcalls))
+        cases.append({"id": cid, "cfg": {"dialect": "internal"}, "units": [{"file": "sig.star", "src": lib, "freeze": True}, {"file": "use.star", "src": use}]})
+        meta[cid] = (sig_text, pcalls, pexp, "partial_frozen")
+        hp = [(k, c, e) for k, (c, e) in enumerate(zip(pcalls, pexp)) if c[1] is not None]
+        cid = "s%d/partial_host" % si
+        srch = d0 + "".join("PH%d = partial(f, %s)\n" % (k, c[2][0]) for k, c, _ in hp)
+        cases.append({"id": cid, "cfg": {"dialect": "internal"}, "units": [{"file": "sig.star", "src": srch, "calls": [{"fn": "PH%d" % k, "pos": c[1][0], "named": c[1][1]} for k, c, _ in hp]}]})
+        meta[cid] = (sig_text, [c for _, c, _ in hp], [e for _, _, e in hp], "partial_host")
+        ncalls += 2 * len(pcalls) + len(hp)
     # native functions (harness natives defined with #[starlark_module]); the oracle is the corresponding Python signature
     NATIVES = [
         ("nat_po2", "a, b, /", ["a", "b"]), ("nat_pk2", "a, b", ["a", "b"]), ("nat_pk_def", "a, b=101", ["a", "b"]),
@@ -191,11 +226,11 @@ def run(tier):
         calls, exp = [k[0] for k in keep], [k[1] for k in keep]
         for path, callee in (("native", nat), ("native_variable", "opaque(%s)" % nat)):
             cid = "n%d/%s" % (ni, path)
-            body = "".join("emit(attempt(lambda: %s(%s)))\n" % (callee, text) for text, _ in calls)
+            body = "".join("emit(attempt(lambda: %s(%s)))\n" % (callee, c[0]) for c in calls)
             cases.append({"id": cid, "cfg": {"dialect": "internal"}, "units": [{"file": "nat.star", "src": body}]})
             meta[cid] = ("<native %s> %s" % (nat, sig_text), calls, exp, path)
         ncalls += len(calls)
-    paths = paths + ["native", "native_variable"]
+    paths = paths + ["partial_split", "partial_frozen", "partial_host", "native", "native_variable"]
     log("[C08] %d signatures x %d paths, %d call shapes" % (len(sigs), len(paths), ncalls))
     svh = os.path.join(common.build("dbg"), "svh")
     batch = common.run_cases(svh, "run", cases, "c08", shards=NCPU, timeout=3000)
@@ -216,7 +251,7 @@ def run(tier):
         if bad:
             rep.violation("c08:module-failed:%s" % path, "%s: def f(%s) module failed: %s" % (c["id"], sig_text, json.dumps(bad[0][4])[:300]), {"case": c})
             continue
-        if path == "host":
+        if path in ("host", "partial_host"):
             got = []
             for e in evs:
                 if e[0] == "call":
@@ -226,7 +261,8 @@ def run(tier):
         if len(got) != len(exp):
             rep.violation("c08:incomplete:%s" % path, "%s: %d results for %d calls" % (c["id"], len(got), len(exp)), {"case": c})
             continue
-        for (text, _), e, g in zip(calls, exp, got):
+        for cc, e, g in zip(calls, exp, got):
+            text = cc[0]
             same = (e[0] == "ok" and g[0] == "ok" and e[1] == g[1]) or (e[0] == "fail" and g[0] == "fail")
             if same:
                 agree[path] += 1
@@ -240,7 +276,7 @@ def run(tier):
                               "def f(%s); f(%s) via %s: starlark %s, call rules (CPython) %s" % (sig_text, text, path, json.dumps(g)[:200], json.dumps(e)[:200]),
                               {"sig": sig_text, "call": text, "path": path, "case": c, "expected": e, "got": g})
         if len(samples) < 3 and path == "direct" and len(calls) > 20:
-            samples.append({"signature": "def f(%s)" % sig_text, "calls": [t for t, _ in calls[:8]], "expected": exp[:8]})
+            samples.append({"signature": "def f(%s)" % sig_text, "calls": [c[0] for c in calls[:8]], "expected": exp[:8]})
     rep.coverage = {
         "evaluations": sum(agree.values()) + len(rep.violations),
         "distinct_nontrivial": len(distinct),
